@@ -165,6 +165,8 @@ theorem T15_6d_rollback_accepted_iff (db : Db C R D) (n : Nat) (hp : db.poisoned
                   log := db.log.drop n, marker := none }) := by
   by_cases hl : n > db.log.length <;> simp [specStep, hp, hl] <;> omega
 
+/-! T15.6e (`Props/C15_Locks2Api.lean`): `specStep` is the sequential API model `Api/Exec.lean`. -/
+
 /-! ## (3) deadlock freedom with two locks -/
 
 /-- T15.7a **the lock order of the code**: every program of the code obeys `wf` — A (read, write step 1,
